@@ -147,6 +147,8 @@ def run(ctx, res):
         for prog in (b'a=' + sq + b' b=' + dq + b'\n', b'a=' + dq + b' b=' + sq + b'\n', b'a=' + sq + b'\n', b'a=' + dq + b'\n', b'a=' + sq + b'\n',
                      b'f' + dq + b' g' + sq + b' h{' + dq + b',' + sq + b'}\n'):
             cases.append((prog, 'default', None, 'string-delimiters'))
+    for prog in gen_lua.string_escape_cases(rng, ctx.budget(300, 6000)):
+        cases.append((prog, rng.choice(['default', 'keepall']), None, 'string-escapes'))
     keep_cache = {}
     speclines, modellines, outs = [], [], []
     for src, cfg, keep, tag in cases:
